@@ -40,4 +40,152 @@ macro "range_fin" : tactic => `(tactic|
       | apply And.intro
       | apply decide_eq_true)) <;> (try trivial) <;> (try omega)))
 
+/-! ### round 4: the loops over the tab stops (cht, cbt)
+
+`rangeS` now follows `forTabs` / `forTabsDown` (`rangeTabLoop`: the body is checked at every tab stop actually visited). The only
+arithmetic in both loops is the counter `n + 1`; the loop leaves at `n == ps`, so `0 ≤ n ≤ ps ≤ 65535` is an invariant of the
+walk (`CntInv`) whatever the tab stops are — no bound on their number or their values is needed. -/
+
+/-- the body of cht()'s loop over the tab stops, as the translator emits it -/
+def chtLoopBody : Stmt :=
+ (.seq (.ite (.cmp .eq (.loc (.var 1)) (.loc (.var 0)))
+ .brk
+ .skip)
+ (.seq (.ite (.cmp .gt (.loc .curCol) .tab)
+ .cont
+ .skip)
+ (.seq (.assign .curCol .tab)
+ (.assign (.var 1) (.add (.loc (.var 1)) (.lit 1))))))
+
+/-- the counter `n` stays within 0..ps ≤ 65535 -/
+def CntInv (s : Frame) : Prop := 0 ≤ s.vars 1 ∧ s.vars 1 ≤ s.vars 0 ∧ s.vars 0 ≤ 65535
+
+def chtNext (s : Frame) : Frame := (s.set .curCol s.tab).set (.var 1) (s.vars 1 + 1)
+
+theorem chtLoopBody_eval (pm : List Param) (s : Frame) : evalS pm chtLoopBody s =
+    .ok (if s.vars 1 = s.vars 0 then (s, Sig.brk) else if s.e.cur.col > s.tab then (s, Sig.cont) else (chtNext s, Sig.norm)) := by
+  simp only [chtLoopBody, evalS, evalCond, evalEx, exOk, Frame.get, ok_bind, Bool.and_true, if_true]
+  simp only [evalCmp]
+  by_cases hc : s.vars 1 = s.vars 0
+  · simp [hc, ok_bind]
+  · by_cases hg : s.e.cur.col > s.tab
+    · simp [hc, hg, ok_bind]
+    · simp [hc, hg, ok_bind, chtNext, Frame.set]
+
+theorem chtLoopBody_chk (pm : List Param) (s : Frame) (h0 : 0 ≤ s.vars 1) (h1 : s.vars 1 ≤ 65535) :
+    rangeS pm chtLoopBody s = true := by
+  simp only [chtLoopBody]
+  range_norm
+  (try range_norm)
+  (try range_norm)
+  range_fin
+
+def chtChk (pm : List Param) (s : Frame) : Bool := rangeS pm chtLoopBody s
+def chtRun (s : Frame) : M (Frame × Sig) :=
+  .ok (if s.vars 1 = s.vars 0 then (s, Sig.brk) else if s.e.cur.col > s.tab then (s, Sig.cont) else (chtNext s, Sig.norm))
+
+theorem chtLoop_range' (pm : List Param) : ∀ (tabs : List Int) (s : Frame), CntInv s →
+    rangeTabLoop (chtChk pm) chtRun tabs s = true
+  | [], s, _ => rfl
+  | t :: rest, s, hi => by
+    obtain ⟨h0, h1, h2⟩ := hi
+    simp only [rangeTabLoop, Bool.and_eq_true]
+    refine ⟨chtLoopBody_chk pm _ h0 (by show s.vars 1 ≤ 65535; omega), ?_⟩
+    unfold chtRun
+    by_cases hc : s.vars 1 = s.vars 0
+    · simp [hc]
+    · by_cases hg : s.e.cur.col > t
+      · simp only [hc, hg, if_false, if_true, reduceCtorEq, or_self]
+        exact chtLoop_range' pm rest _ ⟨h0, h1, h2⟩
+      · simp only [hc, hg, if_false, reduceCtorEq, or_self]
+        apply chtLoop_range' pm rest
+        refine ⟨?_, ?_, ?_⟩ <;> simp [chtNext, Frame.set] <;> omega
+
+theorem chtLoop_range (pm : List Param) (tabs : List Int) (s : Frame) (hi : CntInv s) :
+    rangeTabLoop (fun s => rangeS pm chtLoopBody s) (fun s => evalS pm chtLoopBody s) tabs s = true := by
+  have h1 : (fun s => evalS pm chtLoopBody s) = chtRun := by funext s; rw [chtLoopBody_eval]; rfl
+  rw [h1]
+  exact chtLoop_range' pm tabs s hi
+
+theorem rangeS_seq (pm : List Param) (a b : Stmt) (s : Frame) :
+    rangeS pm (.seq a b) s = (rangeS pm a s && andThen (evalS pm a s) (fun s1 => rangeS pm b s1)) := by
+  simp only [rangeS]
+
+theorem andThen_all (r : M (Frame × Sig)) (k : Frame → Bool) (h : ∀ s, k s = true) : andThen r k = true := by
+  unfold andThen
+  split
+  · exact h _
+  · rfl
+
+/-- the statement after the loop of cht(): `if vt.cursor.col > vt.margin.right { vt.cursor.col = vt.margin.right }` — no arithmetic -/
+def chtTail : Stmt := (.ite (.cmp .gt (.loc .curCol) (.loc .right)) (.assign .curCol (.loc .right)) .skip)
+
+theorem chtTail_range (pm : List Param) (s : Frame) : rangeS pm chtTail s = true := by
+  simp only [chtTail, rangeS, condR, exR, Bool.and_true, Bool.true_and]
+  split <;> rfl
+
+theorem cht_shape : TermBodies.stmt_cht =
+    .seq (.setLastCol false) (.seq (.ite (.cmp .eq (.loc (.var 0)) (.lit 0)) (.assign (.var 0) (.lit 1)) .skip)
+      (.seq (.assign (.var 1) (.lit 0)) (.seq (.forTabs chtLoopBody) chtTail))) := rfl
+
+/-- the body of cbt()'s loop over the tab stops (from the last one down), as the translator emits it -/
+def cbtLoopBody : Stmt :=
+ (.seq (.ite (.cmp .eq (.loc (.var 1)) (.loc (.var 0)))
+ .brk
+ .skip)
+ (.seq (.ite (.cmp .lt (.loc .curCol) .tab)
+ .brk
+ .skip)
+ (.seq (.assign .curCol .tab)
+ (.assign (.var 1) (.add (.loc (.var 1)) (.lit 1))))))
+
+theorem cbtLoopBody_eval (pm : List Param) (s : Frame) : evalS pm cbtLoopBody s =
+    .ok (if s.vars 1 = s.vars 0 then (s, Sig.brk) else if s.e.cur.col < s.tab then (s, Sig.brk) else (chtNext s, Sig.norm)) := by
+  simp only [cbtLoopBody, evalS, evalCond, evalEx, exOk, Frame.get, ok_bind, Bool.and_true, if_true]
+  simp only [evalCmp]
+  by_cases hc : s.vars 1 = s.vars 0
+  · simp [hc, ok_bind]
+  · by_cases hg : s.e.cur.col < s.tab
+    · simp [hc, hg, ok_bind]
+    · simp [hc, hg, ok_bind, chtNext, Frame.set]
+
+theorem cbtLoopBody_chk (pm : List Param) (s : Frame) (h0 : 0 ≤ s.vars 1) (h1 : s.vars 1 ≤ 65535) :
+    rangeS pm cbtLoopBody s = true := by
+  simp only [cbtLoopBody]
+  range_norm
+  (try range_norm)
+  (try range_norm)
+  range_fin
+
+def cbtChk (pm : List Param) (s : Frame) : Bool := rangeS pm cbtLoopBody s
+def cbtRun (s : Frame) : M (Frame × Sig) :=
+  .ok (if s.vars 1 = s.vars 0 then (s, Sig.brk) else if s.e.cur.col < s.tab then (s, Sig.brk) else (chtNext s, Sig.norm))
+
+theorem cbtLoop_range' (pm : List Param) : ∀ (tabs : List Int) (s : Frame), CntInv s →
+    rangeTabLoop (cbtChk pm) cbtRun tabs s = true
+  | [], s, _ => rfl
+  | t :: rest, s, hi => by
+    obtain ⟨h0, h1, h2⟩ := hi
+    simp only [rangeTabLoop, Bool.and_eq_true]
+    refine ⟨cbtLoopBody_chk pm _ h0 (by show s.vars 1 ≤ 65535; omega), ?_⟩
+    unfold cbtRun
+    by_cases hc : s.vars 1 = s.vars 0
+    · simp [hc]
+    · by_cases hg : s.e.cur.col < t
+      · simp [hc, hg]
+      · simp only [hc, hg, if_false, reduceCtorEq, or_self]
+        apply cbtLoop_range' pm rest
+        refine ⟨?_, ?_, ?_⟩ <;> simp [chtNext, Frame.set] <;> omega
+
+theorem cbtLoop_range (pm : List Param) (tabs : List Int) (s : Frame) (hi : CntInv s) :
+    rangeTabLoop (fun s => rangeS pm cbtLoopBody s) (fun s => evalS pm cbtLoopBody s) tabs s = true := by
+  have h1 : (fun s => evalS pm cbtLoopBody s) = cbtRun := by funext s; rw [cbtLoopBody_eval]; rfl
+  rw [h1]
+  exact cbtLoop_range' pm tabs s hi
+
+theorem cbt_shape : TermBodies.stmt_cbt =
+    .seq (.setLastCol false) (.seq (.ite (.cmp .eq (.loc (.var 0)) (.lit 0)) (.assign (.var 0) (.lit 1)) .skip)
+      (.seq (.assign (.var 1) (.lit 0)) (.forTabsDown cbtLoopBody))) := rfl
+
+
 end VaxisModel.Lemmas.EmuBody
